@@ -195,7 +195,7 @@ func (g *obGen) post(i int, hiddenBias bool) J {
 		g.addressAll(a, hiddenBias)
 		return a
 	default: // other activity types: id / store / outbox / deliver ordering
-		typ := Pick(r, []string{"Like", "Announce", "Follow", "Listen", "Arrive", "Accept", "Reject", "Block", "Add"})
+		typ := Pick(r, []string{"Like", "Announce", "Follow", "Listen", "Arrive", "Accept", "Reject", "Block", "Add", "Activity", "Offer"})
 		a := J{"@context": asCtx, "type": typ, "actor": g.st.Alice.ID, "object": Pick(r, []string{g.st.RNote, g.st.Dave, g.st.Note1})}
 		if hiddenBias && r.Intn(3) == 0 && typ != "Arrive" {
 			// a mixed object list: references and embedded values (which may carry hidden recipients of their own)
